@@ -12,6 +12,8 @@ def main() -> int:
     ap.add_argument('--replay', default=None)
     ap.add_argument('--quiet-replay', action='store_true')
     ap.add_argument('--no-lean', action='store_true', help='development only: skip the Lean stage')
+    ap.add_argument('--run-impl', nargs=2, metavar=('IN', 'OUT'), default=None,
+                    help='internal (amplified run): plugin.run_impl on the JSON case list IN, outcomes written to OUT')
     a = ap.parse_args()
     seed = int(os.environ.get('VERIF_SEED', '0') or 0)
     try:
@@ -21,6 +23,22 @@ def main() -> int:
             raise
         print(f'no check for property {a.prop}', file=sys.stderr)
         return 2
+    if a.run_impl:
+        with open(a.run_impl[0]) as f:
+            job = json.load(f)
+        cs = job['cases']
+        if job.get('state') is not None and hasattr(plugin, 'import_state'):
+            plugin.import_state(job['state'])
+        t0 = time.time()
+        # in batches below the size at which some plugins hand their cases to forked worker pools (C07, C09, C19: >= 2000 / 3000 cases):
+        # the amplified sequence has to run in THIS interpreter, in order, so that whatever the library keeps between calls stays
+        step = int(os.environ.get('VERIF_AMPLIFY_BATCH') or 1500)
+        out = []
+        for b in range(0, len(cs), step):
+            out += plugin.run_impl(cs[b:b + step])
+        with open(a.run_impl[1], 'w') as f:
+            json.dump({'impl': out, 'c': [c.get('c') for c in cs], 'run_s': time.time() - t0}, f, default=str)
+        return 0
     if a.replay:
         return core.replay(plugin, a.prop, a.replay, quiet=a.quiet_replay)
     return core.run_check(plugin, a.prop, a.tier, seed, skip_lean=a.no_lean)
